@@ -15,7 +15,11 @@ TRUSTED = ['Model/Reader + Model/Construct + Model/ContainerV2/V3 as models of B
            'the real parser under a counting reader: outcome kind, number and checksum of events, read calls, bytes returned and '
            'bytes requested must all agree with the model; dumps longer than the reader\'s blocks, cut at the block edges (trunc-blocks, sizes '
            'from tools/kdv/readprobe.py), are judged on the code alone',
-           'Model/Pipeline (filter/map stages, print_with_count) tied by sections pipeline and pwc',
+           'Model/Pipeline (filter/map stages, print_with_count) tied by sections pipeline and pwc; print_with_count also tied to the '
+           'SOURCE TEXT: tools/gen_pyir_cli.py translates the loop of __main__.py into the statement IR of Model/PyIRCli on every run '
+           '(cli_source_is_expected_ir, print_with_count_ir_eq_model: the interpreted loop prints printWithCount and lets the '
+           'generator\'s exception out exactly when it asks for an item that is not there); trusted for that: the translator and '
+           'the interpreter (section cli-pwc-raise tests them against CPython on generators that raise while producing item k)',
            'from_kd_buf rejects anything but 64 bytes (C01.decode_rejects_other_lengths)']
 from .. import rdir as _rdir  # noqa: E402
 TRUSTED = TRUSTED + [_rdir.TRUSTED]
@@ -459,6 +463,9 @@ def correspondence(rep, rng, tier):
     run_section(rep, 'pwc', pw, lambda c: 'pwc %d %d' % (c['count'], c['n']), impl_pwc, oracle_fn=oracle_pwc,
                 rule='print_with_count(range(n), count) for n in {0,1,2,5,9} x count in {-3..100}: printed lines == model == '
                      'first count lines (all for negative count)')
+    from .. import cliir
+    cliir.translation_tie(rep, 'C06')               # print_with_count itself, translated from __main__.py
+    cliir.pwc_section(rep, rng, tier)
     coloured_cuts_section(rep, rng, tier)
 
 
@@ -492,6 +499,9 @@ def replay(path):
         print('lines of the cut dump are a prefix of the lines of the whole dump')
         return 0
     sec, case = rp['section'], rp['case']
+    if sec in ('cli-pwc-raise', 'cli-glue', 'cli-decls', 'cli-init', 'cli-formatted'):
+        from .. import cliir
+        return cliir.replay(rp, 'C06', path)
     if sec == 'end-to-end':
         from .. import pipeline as _PL
         return _PL.replay_e2e(case, 'C06', path)
@@ -539,9 +549,11 @@ LEVEL_TEXT = ('Lean theorems over the reader/construct model of parse (v2 and v3
               'e2e_traces_prefix, e2e_count_prefix, e2e_dump_is_parse (the composition\'s container step is parse); '
               'seekUntil_fuel_hang_old (pre-fix loop never terminates at EOF); tied to '
               'the code by cutting generated dumps at every offset under a counting reader with budget and watchdog.'
-              " TRANSLATION TIE: the source text of parse / parse_v2 / parse_v3 (whole, incl. the additional-data blocks and the log loop) / seek_until / set_thread_map is translated on every run (tools/gen_pyir_rd.py, pure ast) into the Python-subset IR of Model/PyIRRd (statements over the model's reader: read, while/for/break/raise/yield, bytes slices and comparisons, construct parsers as primitives; big-step interpreter); source_is_expected_ir: the generated program is the one of Spec/PyIRRdExpected; parse_is_interpreted_source: for EVERY byte string and prior state the model's parse IS that program run by the interpreter, with the same read calls; hence interpreted_source_never_hangs, interpreted_source_truncation_prefix, seek_until_ir_eof.")
+              " TRANSLATION TIE: the source text of parse / parse_v2 / parse_v3 (whole, incl. the additional-data blocks and the log loop) / seek_until / set_thread_map is translated on every run (tools/gen_pyir_rd.py, pure ast) into the Python-subset IR of Model/PyIRRd (statements over the model's reader: read, while/for/break/raise/yield, bytes slices and comparisons, construct parsers as primitives; big-step interpreter); source_is_expected_ir: the generated program is the one of Spec/PyIRRdExpected; parse_is_interpreted_source: for EVERY byte string and prior state the model's parse IS that program run by the interpreter, with the same read calls; hence interpreted_source_never_hangs, interpreted_source_truncation_prefix, seek_until_ir_eof."
+              " print_with_count is translated too (tools/gen_pyir_cli.py -> Gen/PyIRCli, statement IR + interpreter Model/PyIRCli): cli_source_is_expected_ir, print_with_count_ir_eq_model (for every item list, every way the generator ends and every integer count the interpreted loop prints exactly printWithCount and surfaces the generator's exception iff not 0 <= count < number of items), print_with_count_ir_negative / _all / _take, print_with_count_ir_raise_at_count (an exception raised while producing item number count surfaces although count items were printed: the loop pulls before it compares), print_with_count_ir_no_raise_behind_count.")
 LEVEL_NOTE = ('Termination itself is a runtime fact: the proof is about the model (total functions + never_hangs), the code is '
               'tied by the differential runs incl. read counters. The bound is on calls + bytes returned, not bytes requested. '
               'Trace/callstack stages are covered generically (any feed function); plist decoding is opaque.'
-              ' The hand model of the readers is no longer trusted by itself: it is proved equal to the interpreted source (trusted instead: translator tools/gen_pyir_rd.py and interpreter Model/PyIRRd, both tested against CPython by the sections *-ir; the construct parsers, plistlib.loads and OsLogEvent.from_raw_log_event as primitives / parameters).')
+              ' The hand model of the readers is no longer trusted by itself: it is proved equal to the interpreted source (trusted instead: translator tools/gen_pyir_rd.py and interpreter Model/PyIRRd, both tested against CPython by the sections *-ir; the construct parsers, plistlib.loads and OsLogEvent.from_raw_log_event as primitives / parameters).'
+              ' print_with_count: generators are (items delivered, optional exception); trusted: tools/gen_pyir_cli.py and the loop interpreter of Model/PyIRCli (section cli-pwc-raise).')
 TECHNIQUE = 'Lean 4 proof (simulation under truncation, potential-function cost bound) + exhaustive-offset differential correspondence + translation validation (source text -> IR, proved equal to the model)'
